@@ -66,6 +66,14 @@ out.append("### 0.3 Seeded changes and which checks catch them\n")
 out.append("Fresh sub-agents that were given only a property's text and a scratch worktree wrote realistic property-breaking changes (two rounds, the second told which ideas were taken); each kept change was confirmed by the lead in a scratch worktree (demo passes on the clean tree and fails with the change, build ok, existing tests of the changed packages and their importers pass) and lives under `seeded/<id>/` (patch.diff, demo, NOTES.md, meta.json with the first-trial result, result.json with the last run). `lib/seed_matrix.py` re-runs all of them.\n")
 if os.path.exists(mp):
     out.append(open(mp).read().split("\n\n", 2)[-1])
+hp = os.path.join(ROOT, "seeded", "_harmless", "RESULT.txt")
+out.append("\n### 0.4 False-alarm tests\n")
+out.append("* Seeds: `lib/seed_sweep.sh` runs every quick check under several `VERIF_SEED`s on the unchanged tree (seeds 1–5, 7, 11 and, per property, up to 14 seeds by its owner); two checks whose verdict depended on the seed (C12: an account number drawn by x/bank for a fresh ERC-20 recipient was read as the known finding's trace; C08: downstream effects of the known trace defect on other senders were classified as new) were repaired. The thorough tier of all twenty checks passes on the unchanged tree.")
+if os.path.exists(hp):
+    lines = [l for l in open(hp).read().strip().split("\n") if l]
+    ok = sum(1 for l in lines if " exit 0 0v" in l)
+    out.append("* Harmless changes: a sub-agent that saw nothing of /verif wrote eight behaviour-preserving refactors (helper extraction, if-chain to switch, early returns, renamed locals, split functions) in `x/evm/vm/state_db.go`, `x/evm/keeper/state_transition.go`, `x/cpc/keeper/precompiles_erc20.go`, `precompiles_staking.go`, `app/antedl`, `x/feemarket/keeper`, `rpc/backend/utils.go`, `x/vauth/keeper` (`seeded/_harmless/h*.diff`); the relevant checks were run against each in a scratch worktree: %d of %d runs exit 0 with no VIOLATION line (`seeded/_harmless/RESULT.txt`)." % (ok, len(lines)))
+out.append("* A change that renames or re-types an exported function the harness links against makes the harness build fail; that is reported as a broken correspondence (`VIOLATION … no-failing-input-found`, replay names `corr:build/harness`), as the brief prescribes. Drivers call constructors whose parameter lists are likely to grow through reflection where that was cheap (C12).")
 gen = "\n".join(out)
 dp = os.path.join(ROOT, "DESIGN.md")
 s = open(dp).read()
